@@ -259,6 +259,41 @@ def run(p, report, tier):
                     reports.pop(nm)
             report.add("R1.7", f.qual, "all locals bound before use", f"{f.file}:{f.node.lineno}", not reports,
                        detail=("; ".join(f"{k} unbound" for k in reports)) or (("infeasible residual: " + exc) if exc else ""))
+    # ---------------- R11.6 / R11.7 shared structural premises of "most probable class" and "uniform without labels"
+    report.rule("R11.6", "predict returns exact optimisers only: rand_argmin / rand_argmax mask with equality to the "
+                "NaN-aware optimum, not with a tolerance (shared with C18 R18.1)", floor=4)
+    from . import c18, c13_fit
+    c18.check_argmax_primitives(p, report, "R11.6")
+    report.rule("R11.7", "every classifier's fit computes what predict_proba later reads from its arguments: no fitted "
+                "attribute (weights of an earlier fit, also through getattr) is read before it is stored in the same "
+                "fit - otherwise a refit without labels keeps the old model instead of the uniform one "
+                "(shared with C13 R13.2)", floor=5)
+    c13_fit.check_fit_recomputes(p, report, [(ci, p.find_method(ci, "fit")) for ci in classes
+                                             if p.find_method(ci, "fit") is not None and not is_abstract(p.find_method(ci, "fit"))],
+                                 "R11.7", skip_attrs=("n_features_in_",))
+    # ---------------- R11.8 one count per declared class
+    report.rule("R11.8", "label counts that back the fallback probabilities have one entry per class of classes_: built "
+                "over range(len(classes_)) or by np.bincount with minlength=len(classes_)", floor=1)
+    n118 = 0
+    for ci in classes:
+        for m in ci.methods.values():
+            for st in ast.walk(m.node):
+                if isinstance(st, ast.Assign) and any(isinstance(t, ast.Attribute) and t.attr == "_label_counts" for t in st.targets):
+                    v = st.value
+                    verdict = None
+                    if isinstance(v, ast.ListComp) and len(v.generators) == 1:
+                        it_ = ast.unparse(v.generators[0].iter).replace(" ", "")
+                        verdict = it_.startswith("range(len(") and "classes_" in it_
+                    elif isinstance(v, ast.Call) and c01.callname(v) == "bincount":
+                        ml = [k.value for k in v.keywords if k.arg == "minlength"] + list(v.args[2:3])
+                        verdict = bool(ml) and "classes_" in ast.unparse(ml[0])
+                    if verdict is None:
+                        continue
+                    n118 += 1
+                    report.add("R11.8", m.qual, f"`{norm_stmt(st, 70)}` has one entry per class", f"{m.file}:{st.lineno}", verdict,
+                               detail="sized by len(classes_)" if verdict else
+                               "the counts are only as long as the largest observed class index + 1: predict_proba of the "
+                               "fallback has fewer columns than classes_ whenever the last classes were not observed")
     report.assumptions += ["finiteness, non-negativity and row sums equal to one as numbers are not decided",
                            "the wrapped estimator's predict returns class labels and its predict_proba is row-normalised"]
 
